@@ -91,6 +91,9 @@ fn run_exec(scn: &Value) {
     use std::sync::Mutex;
     use std::task::{Poll, Waker};
     let rounds = scn["rounds"].as_u64().unwrap_or(20000);
+    // upper bound of the random pause before each wake (spin-loop iterations): short pauses land while the loop is still
+    // being woken, long ones while it is finishing its run of the executor
+    let spin = scn["spin"].as_u64().unwrap_or(400).max(1);
     let mut el: EventLoop<'static, u64> = EventLoop::try_new().unwrap();
     let (exec, sched) = calloop::futures::executor::<u64>().unwrap();
     el.handle().insert_source(exec, |r, &mut (), d: &mut u64| *d += r).unwrap();
@@ -141,7 +144,7 @@ fn run_exec(scn: &Value) {
                 x ^= x << 13;
                 x ^= x >> 7;
                 x ^= x << 17;
-                for _ in 0..(x % 400) {
+                for _ in 0..(x % spin) {
                     std::hint::spin_loop();
                 }
                 counter2.store(round * 2 + k, Ordering::Release);
